@@ -133,14 +133,19 @@ CLAIMS.update({
         note=NU_NOTE),
     "C07": dict(
         technique="Lean 4 theorems (append-shortcut decision rule; worker-level convergence from the run contracts: bookkeeping survives every run, rebuilding runs repair, incremental runs preserve, quiescent = from scratch) + end-to-end comparison of every quiescent history with a fresh Nucleo",
-        text="Partial proof. Theorems: the Update shortcut is taken only for a truthful append onto a column not already due for a rescore whose last atom is positive, not "
+        text="Theorems: the Update shortcut is taken only for a truthful append onto a column not already due for a rescore whose last atom is positive, not "
              "postfix/exact, does not end in a backslash and (unless fuzzy) not in an escaped dollar (repair of F9), with decided witnesses that each excluded class is not a "
              "narrowing; a cancelling tick always hands the worker the current pattern. Convergence at the level of the worker (companion file C07_Quiescent, on the run contracts "
              "of C06_RunContract): the bookkeeping invariant survives every run, completed or cancelled at any point (BK_run); a completed rebuilding run (rescoring after a "
              "non-appended edit or restart, or the empty pattern) makes the match list right from any such state (C07_rescore_establishes, C07_any_run_then_rescore); completed "
              "incremental runs keep it right (C07_unchanged_preserves, C07_update_preserves - the latter needs exactly the narrowing property the Update rule is about); and a right "
-             "list with nothing in flight is the from-scratch result over all items, with the item count equal to their number (C07_quiescent). Not a theorem: an appended edit "
-             "directly after a cancelled run, and the composition with the tick protocol into one history-level statement (C19's invariant covers the snapshot side). "
+             "list with nothing in flight is the from-scratch result over all items, with the item count equal to their number (C07_quiescent). Cancellation (companion file "
+             "C07_Cancelled): every run, whatever it observes of the cancel flag and wherever it is interrupted, ends in a 'loose' state - no accounted item that matches the "
+             "pattern is lost, real entries are distinct accounted items, left-over placeholders have score 0 (scorePass_loose, C06_cancelled_run_loose); a completed Update run "
+             "turns a loose state into the exactly right list (C06_update_run_contract_loose); C07_history: through any sequence of rescoring / appended-edit / unchanged-pattern "
+             "runs, each completed or cancelled anywhere, the worker is loose between runs and exactly right after every completed run - in particular an appended edit arriving "
+             "while the previous run is being cancelled is handled correctly. The protocol facts the history theorem assumes (an unchanged-pattern run only follows a completed run; "
+             "Update only for a narrowing edit) are C07's rule and C19's invariant; their composition into one statement over tick histories is not a theorem. "
              "Convergence is also checked end to end: every generated history is driven to quiescence "
              "and its snapshot compared with a fresh Nucleo fed the same items and final pattern (oracle independent of the model).",
         note=NU_NOTE),
@@ -173,9 +178,10 @@ CLAIMS.update({
         text="Theorems: every atomic operation of the item vector is classified (C09_sites_covered fails when one is added or removed); the declared orderings are the ones the "
              "chains need (weakening any of them breaks C09_orderings, strengthening keeps it); and for every execution (events, program order, reads-from, library edges) that "
              "follows the stated skeleton, the initialising write happens-before the read: entry data for get and the snapshot iterators, the bucket header's non-atomic "
-             "initialisation for get / iterators (repair of F10) / writers, and get_unchecked through its caller contract and the publisher's acquire of the pointer. The worker's "
+             "initialisation for get / iterators (repair of F10) / writers (their program-order premise - every non-atomic flag initialisation is sequenced before the publishing "
+             "CAS and reachable nowhere else - is extracted from src/boxcar.rs by the translator: C09_bucket_init_precedes_publication), and get_unchecked through its caller contract and the publisher's acquire of the pointer. The worker's "
              "result list, the per-thread matchers and Drop are ordered by library edges (mutex, spawn/join, Arc). The skeleton is validated by replaying real schedules site by "
-             "site; the caller contract of get_unchecked is evaluated on real Nucleo histories (every index handed to it has reached its publishing store); three litmus programs run "
+             "site; the caller contract of get_unchecked is evaluated on real Nucleo histories (every index handed to it has reached its publishing store); four litmus programs run "
              "under Miri's race detector (thorough tier, and whenever a certificate breaks: Miri's report is then the replay).",
         note="Trusted: Lean kernel, axioms propext/Classical.choice/Quot.sound, translator (atomic-site extraction), the release/acquire fragment of the memory model as formalised "
              "in Model/MemModel.lean, harness scheduler, Miri as the search engine. rayon, parking_lot and Arc internals are library edges."),
